@@ -403,8 +403,10 @@ impl<'this> InternalOptimisingLineFormatter<'this, '_> {
                         formatting_data.newlines_before = 1;
                     }
                     formatting_data.indentations_before = solution.starting_ws.indentations;
-                    formatting_data.continuations_before =
-                        solution.starting_ws.continuations + continuations;
+                    formatting_data.continuations_before = solution
+                        .starting_ws
+                        .continuations
+                        .saturating_add(continuations);
                 }
                 Decision::Continue => {
                     formatting_data.newlines_before = 0;
